@@ -829,6 +829,24 @@ type rmwLoop struct {
 	Fn     *ssa.Function
 	Reads  []ssa.CallInstruction
 	Writes []ssa.CallInstruction
+	// Via: for a write that sits in a helper the loop calls, the loop's call of that helper
+	Via map[ssa.CallInstruction]ssa.CallInstruction
+}
+
+// actualOf maps a parameter of a write helper to the value the loop passes for it.
+func (lp *rmwLoop) actualOf(p *ssa.Parameter) (ssa.Value, bool) {
+	for _, via := range lp.Via {
+		h := via.Common().StaticCallee()
+		if h == nil || p.Parent() != h {
+			continue
+		}
+		for i, q := range h.Params {
+			if q == p && i < len(via.Common().Args) {
+				return via.Common().Args[i], true
+			}
+		}
+	}
+	return nil, false
 }
 
 func (m *Model) condEntryPoints() map[*ssa.Function]int {
@@ -893,7 +911,7 @@ func (m *Model) rmwLoops() []*rmwLoop {
 		if fn.Parent() != nil || fn.Pkg != m.SSA {
 			continue
 		}
-		lp := &rmwLoop{Fn: fn}
+		lp := &rmwLoop{Fn: fn, Via: map[ssa.CallInstruction]ssa.CallInstruction{}}
 		m.eachCall(fn, func(c ssa.CallInstruction) {
 			if !inCycle(c.Block()) {
 				return
@@ -908,6 +926,18 @@ func (m *Model) rmwLoops() []*rmwLoop {
 				lp.Writes = append(lp.Writes, c)
 			} else if m.isReadFn(callee) && !m.reachesRunner(callee, map[*ssa.Function]int{}) {
 				lp.Reads = append(lp.Reads, c)
+			} else if m.inPkg(callee) && callee.Parent() == nil && len(callee.Blocks) > 0 {
+				// a helper that only dispatches to the conditional writers
+				m.eachCall(callee, func(c2 ssa.CallInstruction) {
+					f2 := c2.Common().StaticCallee()
+					if f2 == nil {
+						return
+					}
+					if _, ok := conds[f2]; ok || f2.Name() == "WriteResurrectionWithXattrs" {
+						lp.Writes = append(lp.Writes, c2)
+						lp.Via[c2] = c
+					}
+				})
 			}
 		})
 		if len(lp.Reads) > 0 && len(lp.Writes) > 0 {
@@ -960,13 +990,17 @@ func (m *Model) ruleRMW(r *Results) {
 			}
 		}
 		// (c) the loop repeats only on a CAS mismatch / key-exists error: every back edge from after the write is control dependent on a type test of the write's error
-		for _, w := range lp.Writes {
+		for _, w0 := range lp.Writes {
+			w := w0
+			if via, ok := lp.Via[w0]; ok {
+				w = via // the helper hands the write's result on; the loop tests the helper's error
+			}
 			errV := writeErrValue(w)
 			if errV == nil {
 				continue
 			}
 			okOnly := m.loopsOnlyOnCasError(fn, w, errV)
-			r.check(okOnly, rule, name+" / retry condition after "+w.Common().StaticCallee().Name(), m.instrPos(w), "the loop retries only when the write reported a CAS mismatch (or key-exists)", "after the conditional write the loop can repeat on an error that is not a CAS mismatch, or give up on one")
+			r.check(okOnly, rule, name+" / retry condition after "+w0.Common().StaticCallee().Name(), m.instrPos(w), "the loop retries only when the write reported a CAS mismatch (or key-exists)", "after the conditional write the loop can repeat on an error that is not a CAS mismatch, or give up on one")
 		}
 	}
 	if len(loops) < 3 {
@@ -1154,6 +1188,9 @@ func (m *Model) casSource(v ssa.Value, fn *ssa.Function, lp *rmwLoop, depth int,
 	case *ssa.Field:
 		return m.casSource(x.X, fn, lp, depth+1, seen)
 	case *ssa.Parameter:
+		if av, ok := lp.actualOf(x); ok {
+			return m.casSource(av, fn, lp, depth+1, seen)
+		}
 		return "the caller's own argument " + x.Name()
 	case *ssa.Const:
 		return "the constant " + x.String()
@@ -1202,6 +1239,9 @@ func (m *Model) docSource(p ssa.Value, fn *ssa.Function, lp *rmwLoop, depth int,
 		sort.Strings(ks)
 		return strings.Join(ks, " or ")
 	case *ssa.Parameter:
+		if av, ok := lp.actualOf(x); ok {
+			return m.docSource(av, fn, lp, depth+1, seen)
+		}
 		if isPtrToNamed(x.Type(), sgbucketPath, "BucketDocument") {
 			return "caller-supplied previous document"
 		}
@@ -1258,6 +1298,9 @@ func (m *Model) loopsOnlyOnCasError(fn *ssa.Function, w ssa.CallInstruction, err
 		}
 		if call, ok := cond.(*ssa.Call); ok {
 			if f := call.Common().StaticCallee(); f != nil && f.Pkg != nil && f.Pkg.Pkg.Path() == "errors" && (f.Name() == "Is" || f.Name() == "As") && flowsThroughPhi(errV, call.Common().Args[0]) {
+				isCasTest = true
+			}
+			if f := call.Common().StaticCallee(); f != nil && m.isCasErrorPredicate(f) && flowsThroughPhi(errV, call.Common().Args[0]) {
 				isCasTest = true
 			}
 		}
@@ -1491,4 +1534,70 @@ func flowsThroughPhi(src, dst ssa.Value) bool {
 		return false
 	}
 	return rec(dst)
+}
+
+// isCasErrorPredicate: a package function func(error) bool that returns true only when its
+// argument passed a CAS-mismatch type test or an errors.Is/As test.
+func (m *Model) isCasErrorPredicate(f *ssa.Function) bool {
+	if !m.inPkg(f) || len(f.Blocks) == 0 || len(f.Params) != 1 || f.Signature.Results().Len() != 1 {
+		return false
+	}
+	if !types.Identical(f.Params[0].Type(), types.Universe.Lookup("error").Type()) || !types.Identical(f.Signature.Results().At(0).Type(), types.Typ[types.Bool]) {
+		return false
+	}
+	P := f.Params[0]
+	isErrTestCall := func(v ssa.Value) bool {
+		call, ok := stripConv(v).(*ssa.Call)
+		if !ok {
+			return false
+		}
+		g := call.Common().StaticCallee()
+		return g != nil && g.Pkg != nil && g.Pkg.Pkg.Path() == "errors" && (g.Name() == "Is" || g.Name() == "As") && stripConv(call.Common().Args[0]) == ssa.Value(P)
+	}
+	var okValue func(v ssa.Value, blk *ssa.BasicBlock, depth int) bool
+	okValue = func(v ssa.Value, blk *ssa.BasicBlock, depth int) bool {
+		v = stripConv(v)
+		if depth > 4 {
+			return false
+		}
+		switch x := v.(type) {
+		case *ssa.Const:
+			if x.Value == nil || !constant.BoolVal(x.Value) {
+				return true // false: never asks for a retry
+			}
+			// true: only under a passed test
+			for _, ct := range controllingConds(f, blk) {
+				cond := ct.If.Cond
+				if ex, ok := cond.(*ssa.Extract); ok && ct.Branch {
+					if ta, ok := ex.Tuple.(*ssa.TypeAssert); ok && stripConv(ta.X) == ssa.Value(P) && isNamed(ta.AssertedType, sgbucketPath, "CasMismatchErr") {
+						return true
+					}
+				}
+				if isErrTestCall(cond) && ct.Branch {
+					return true
+				}
+			}
+			return false
+		case *ssa.Call:
+			return isErrTestCall(x)
+		case *ssa.Extract:
+			if ta, ok := x.Tuple.(*ssa.TypeAssert); ok && x.Index == 1 {
+				return stripConv(ta.X) == ssa.Value(P) && isNamed(ta.AssertedType, sgbucketPath, "CasMismatchErr")
+			}
+		case *ssa.Phi:
+			for i, e := range x.Edges {
+				if !okValue(e, x.Block().Preds[i], depth+1) {
+					return false
+				}
+			}
+			return true
+		}
+		return false
+	}
+	for _, ret := range returnsOf(f) {
+		if !okValue(ret.Results[0], ret.Block(), 0) {
+			return false
+		}
+	}
+	return true
 }
